@@ -42,6 +42,7 @@ func runC04(w *World, r *Report) {
 	hrSetTypeStores(w, r, "R6")
 	hrEveryMatchingEdgeFollowed(w, r, "R1")
 	hrScriptRestoresResponse(w, r, "R6")
+	hrIsEmptyLooksAtAllThree(w, r, "R6")
 	hrGenerateResponseHandsOver(w, r, "R6")
 	hrConcurrentLocations(w, r, "R8")
 	hrSystemFlowsLookedUpAlways(w, r, "R6")
